@@ -5,6 +5,7 @@ package c20
 import (
 	"encoding/json"
 	"fmt"
+	"os"
 	"sort"
 	"strings"
 	"sync"
@@ -18,7 +19,14 @@ import (
 	h "verif/harness"
 )
 
-func TestMain(m *testing.M) { h.Main(m, "C20", replay) }
+func TestMain(m *testing.M) {
+	// part B re-executes this binary as the prefork master and its workers
+	if os.Getenv("VERIF_PM_ROLE") != "" {
+		runRole()
+		return
+	}
+	h.Main(m, "C20", replay)
+}
 
 type schedCase struct {
 	Init    int   `json:"init"`
